@@ -9,6 +9,8 @@ trap 'rm -rf "$W"' EXIT
 export CARGO_TARGET_DIR=/verif/build/seed-target
 git -C /repo archive HEAD | tar -x -C "$W" || exit 2
 DEMO_DST=$(head -3 "$SD/seed_demo.rs" | grep -o 'crates/[A-Za-z0-9_/.-]*\.rs' | head -1)
+[ -z "$DEMO_DST" ] && DEMO_DST=$(grep -o 'crates/[A-Za-z0-9_-]*/tests/seed_demo\.rs' "$SD/notes.md" 2>/dev/null | head -1)
+[ -z "$DEMO_DST" ] && grep -q 'maybenot_simulator' "$SD/seed_demo.rs" && DEMO_DST=crates/maybenot-simulator/tests/seed_demo.rs
 [ -z "$DEMO_DST" ] && DEMO_DST=crates/maybenot/tests/seed_demo.rs
 PKG=$(echo "$DEMO_DST" | cut -d/ -f2)
 TESTNAME=$(basename "$DEMO_DST" .rs)
